@@ -444,7 +444,12 @@ func (fb *FullBlockImage) Resize(w int, h int) {
 		y *= 2
 
 		top := img.At(x, y)
-		bot := img.At(x, y+1)
+		bot := top
+		if y+1 < img.Bounds().Max.Y {
+			// the last row of an image of odd height has no lower
+			// pixel: the cell shows the upper one alone
+			bot = img.At(x, y+1)
+		}
 		r, g, b, a := averageColor(top, bot)
 		switch {
 		// TODO: What is the right value for alpha that we should set
